@@ -9,7 +9,7 @@ Require Import PV.Proofs.NarrowBasics PV.Proofs.NarrowLift PV.Proofs.NarrowLeave
 Lemma c02_guard_split : forall c o, c02_guard c o = true ->
   wf_obj o = true /\ cond_ok c o = true /\ multiple_inheritance o = false /\
   subclass_bool o = false /\ promotion_negative c o = false /\ enum_class_object o = false /\
-  sequence_pattern_str c o = false /\ assert_promotion c o = false.
+  sequence_pattern_str c o = false /\ assert_promotion c o = false /\ generic_pattern_negative c o = false.
 Proof.
   intros c o H. unfold c02_guard in H.
   repeat (apply andb_true_iff in H; destruct H as [H ?]).
@@ -20,22 +20,9 @@ Qed.
 Lemma c02_guard_join : forall c o,
   wf_obj o = true -> cond_ok c o = true -> multiple_inheritance o = false ->
   subclass_bool o = false -> promotion_negative c o = false -> enum_class_object o = false ->
-  sequence_pattern_str c o = false -> assert_promotion c o = false ->
+  sequence_pattern_str c o = false -> assert_promotion c o = false -> generic_pattern_negative c o = false ->
   c02_guard c o = true.
-Proof. intros c o H1 H2 H3 H4 H5 H6 H7 H8. unfold c02_guard. rewrite H1, H2, H3, H4, H5, H6, H7, H8. reflexivity. Qed.
-
-Lemma ap_split : forall a b o,
-  (has_assert a || has_assert b) && numeric_like o = false ->
-  assert_promotion a o = false /\ assert_promotion b o = false.
-Proof.
-  intros a b o H. unfold assert_promotion.
-  destruct (numeric_like o); [|rewrite !andb_false_r; tauto].
-  rewrite andb_true_r in H. apply orb_false_iff in H. destruct H as [-> ->]. tauto.
-Qed.
-
-Lemma sps_or : forall a b o, sequence_pattern_str a o || sequence_pattern_str b o = false ->
-  sequence_pattern_str a o = false /\ sequence_pattern_str b o = false.
-Proof. intros a b o H. apply orb_false_iff in H. exact H. Qed.
+Proof. intros c o H1 H2 H3 H4 H5 H6 H7 H8 H9. unfold c02_guard. rewrite H1, H2, H3, H4, H5, H6, H7, H8, H9. reflexivity. Qed.
 
 Lemma sps_split : forall a b o,
   (has_seqis_false a || has_seqis_false b) && sub_art (class_of o) CStr = false ->
@@ -95,10 +82,25 @@ Proof. induction cs; simpl; [reflexivity|assumption]. Qed.
 Lemma no_vtuple_sub : forall cs, forallb (fun p => negb (is_vtuple p)) (map VSub cs) = true.
 Proof. induction cs; simpl; [reflexivity|assumption]. Qed.
 
-Lemma pat_ok_typed : forall cs, forallb pat_ok (map VTyped cs) = true.
+Lemma no_generic_typed : forall cs, existsb is_generic_pat (map VTyped cs) = false.
 Proof. induction cs; simpl; [reflexivity|assumption]. Qed.
-Lemma pat_ok_sub : forall cs, forallb pat_ok (map VSub cs) = true.
+Lemma no_generic_sub : forall cs, existsb is_generic_pat (map VSub cs) = false.
 Proof. induction cs; simpl; [reflexivity|assumption]. Qed.
+
+Lemma generic_negative_guard : forall t o,
+  existsb (member_b o) t = false ->
+  existsb (fun p => is_generic_pat p && negb (member_b o p)) t && is_collection o = false ->
+  existsb is_generic_pat t = true -> is_collection o = false.
+Proof.
+  intros t o Hm Hg Hex. destruct (is_collection o); [|reflexivity]. rewrite andb_true_r in Hg.
+  apply existsb_exists in Hex. destruct Hex as [p [Hin Hp]].
+  assert (Hmp : member_b o p = false).
+  { destruct (member_b o p) eqn:E; [|reflexivity].
+    assert (existsb (member_b o) t = true) by (apply existsb_exists; exists p; split; assumption). congruence. }
+  assert (existsb (fun p0 => is_generic_pat p0 && negb (member_b o p0)) t = true).
+  { apply existsb_exists. exists p. split; [exact Hin|]. rewrite Hp, Hmp. reflexivity. }
+  congruence.
+Qed.
 
 Lemma not_seq_not_member : forall o, wf_obj o = true -> seq_elems o = None ->
   member_b o (VGen GSeqPat) = false.
@@ -125,8 +127,8 @@ Proof. destruct l; simpl; intros H; try discriminate; reflexivity. Qed.
 (* ---- every condition kind, both polarities ---- *)
 Ltac guard_parts H :=
   let Hw := fresh "Hw" in let Hok := fresh "Hok" in let Hmi := fresh "Hmi" in
-  let Hsb := fresh "Hsb" in let Hpn := fresh "Hpn" in let Hec := fresh "Hec" in let Hss := fresh "Hss" in let Hap := fresh "Hap" in
-  destruct (c02_guard_split _ _ H) as [Hw [Hok [Hmi [Hsb [Hpn [Hec [Hss Hap]]]]]]].
+  let Hsb := fresh "Hsb" in let Hpn := fresh "Hpn" in let Hec := fresh "Hec" in let Hss := fresh "Hss" in let Hap := fresh "Hap" in let Hgp := fresh "Hgp" in
+  destruct (c02_guard_split _ _ H) as [Hw [Hok [Hmi [Hsb [Hpn [Hec [Hss [Hap Hgp]]]]]]]].
 
 Ltac weaken L := eapply ksound_weaken; [|apply L]; cbv beta; intros o [Hh Hg].
 
@@ -141,20 +143,22 @@ Proof.
     + weaken truthy_neg_sound. guard_parts Hg. simpl in Hh. injection Hh as Hh'. split; assumption.
   - (* isinstance *)
     split; apply asound_leaf.
-    + weaken (isassign_pos_sound (map VTyped cs) false (pat_ok_typed cs)). guard_parts Hg. simpl in Hh. injection Hh as Hh'.
+    + weaken (isassign_pos_sound (map VTyped cs) false). guard_parts Hg. simpl in Hh. injection Hh as Hh'.
       split; [apply isinst_member; exact Hh'|split; assumption].
-    + weaken (isassign_neg_sound (map VTyped cs) false (no_vtuple_typed cs) (pat_ok_typed cs)).
+    + weaken (isassign_neg_sound (map VTyped cs) false (no_vtuple_typed cs)).
       guard_parts Hg. simpl in Hh. injection Hh as Hh'.
-      split; [apply not_isinst_not_member; [exact Hh'|exact Hpn]|split; [assumption|split; [assumption|]]].
-      intros _ Hin. exfalso. apply in_map_iff in Hin. destruct Hin as [x [Hx _]]. discriminate.
+      split; [apply not_isinst_not_member; [exact Hh'|exact Hpn]|split; [assumption|split; [assumption|split]]].
+      * intros _ Hin. exfalso. apply in_map_iff in Hin. destruct Hin as [x [Hx _]]. discriminate.
+      * rewrite no_generic_typed. intros Hf. discriminate.
   - (* issubclass *)
     split; apply asound_leaf.
-    + weaken (isassign_pos_sound (map VSub cs) false (pat_ok_sub cs)). guard_parts Hg. simpl in Hh. destruct o; try discriminate.
+    + weaken (isassign_pos_sound (map VSub cs) false). guard_parts Hg. simpl in Hh. destruct o; try discriminate.
       injection Hh as Hh'. split; [apply sub_member; exact Hh'|split; assumption].
-    + weaken (isassign_neg_sound (map VSub cs) false (no_vtuple_sub cs) (pat_ok_sub cs)).
+    + weaken (isassign_neg_sound (map VSub cs) false (no_vtuple_sub cs)).
       guard_parts Hg. simpl in Hh. destruct o; try discriminate.
-      injection Hh as Hh'. split; [apply not_sub_not_member; [exact Hh'|exact Hpn]|split; [assumption|split; [assumption|]]].
-      intros _ Hin. exfalso. apply in_map_iff in Hin. destruct Hin as [x [Hx _]]. discriminate.
+      injection Hh as Hh'. split; [apply not_sub_not_member; [exact Hh'|exact Hpn]|split; [assumption|split; [assumption|split]]].
+      * intros _ Hin. exfalso. apply in_map_iff in Hin. destruct Hin as [x [Hx _]]. discriminate.
+      * rewrite no_generic_sub. intros Hf. discriminate.
   - (* is *)
     split; apply asound_leaf.
     + destruct (atomic l) eqn:Hat.
@@ -206,25 +210,18 @@ Proof.
       injection Hh as Hh'. exists k. split; [reflexivity|]. rewrite eval_neg_op, Hh'. reflexivity.
   - (* TypeIs *)
     split; apply asound_leaf.
-    + destruct (forallb pat_ok t) eqn:Hpk.
-      * weaken (isassign_pos_sound t false Hpk). guard_parts Hg. simpl in Hh. injection Hh as Hh'.
-        split; [assumption|split; assumption].
+    + weaken (isassign_pos_sound t false). guard_parts Hg. simpl in Hh. injection Hh as Hh'.
+      split; [assumption|split; assumption].
+    + destruct (forallb (fun p => negb (is_vtuple p)) t) eqn:Hvt.
+      * weaken (isassign_neg_sound t false Hvt). guard_parts Hg. simpl in Hh. injection Hh as Hh'.
+        split; [exact Hh'|split; [assumption|split; [assumption|split]]].
+        -- intros _ Hin. exfalso. simpl in Hok. apply andb_true_iff in Hok. destruct Hok as [_ Hok].
+           rewrite forallb_forall in Hok. pose proof (Hok _ Hin) as Hx. discriminate.
+        -- simpl in Hgp. apply (generic_negative_guard t o Hh' Hgp).
       * intros s o Hm [Hh Hg]. guard_parts Hg. simpl in Hok. exfalso.
         apply andb_true_iff in Hok. destruct Hok as [_ Hok].
-        assert (forallb pat_ok t = true).
-        { apply forallb_forall. intros x Hx. rewrite forallb_forall in Hok. pose proof (Hok x Hx) as Hx'.
-          destruct x; try reflexivity. discriminate. }
-        rewrite H in Hpk. discriminate.
-    + destruct (forallb (fun p => negb (is_vtuple p)) t && forallb pat_ok t) eqn:Hvt.
-      * apply andb_true_iff in Hvt. destruct Hvt as [Hvt Hpk].
-        weaken (isassign_neg_sound t false Hvt Hpk). guard_parts Hg. simpl in Hh. injection Hh as Hh'.
-        split; [exact Hh'|split; [assumption|split; [assumption|]]].
-        intros _ Hin. exfalso. simpl in Hok. apply andb_true_iff in Hok. destruct Hok as [_ Hok].
-        rewrite forallb_forall in Hok. pose proof (Hok _ Hin) as Hx. discriminate.
-      * intros s o Hm [Hh Hg]. guard_parts Hg. simpl in Hok. exfalso.
-        apply andb_true_iff in Hok. destruct Hok as [_ Hok].
-        assert (forallb (fun p => negb (is_vtuple p)) t && forallb pat_ok t = true).
-        { apply andb_true_iff. split; apply forallb_forall; intros x Hx; rewrite forallb_forall in Hok;
+        assert (forallb (fun p => negb (is_vtuple p)) t = true).
+        { apply forallb_forall; intros x Hx; rewrite forallb_forall in Hok;
             pose proof (Hok x Hx) as Hx'; destruct x; try reflexivity; discriminate. }
         rewrite H in Hvt. discriminate.
   - (* TypeGuard *)
@@ -233,10 +230,10 @@ Proof.
     + apply valueobject_neg_sound.
   - (* case c(): *)
     split; apply asound_leaf.
-    + weaken (isassign_pos_sound [VTyped c0] true eq_refl). guard_parts Hg. simpl in Hh. injection Hh as Hh'.
+    + weaken (isassign_pos_sound [VTyped c0] true). guard_parts Hg. simpl in Hh. injection Hh as Hh'.
       split; [|split; assumption]. simpl. unfold isinst in Hh'. rewrite (sub_sub_art _ _ Hh'). reflexivity.
-    + weaken (isassign_neg_sound [VTyped c0] true eq_refl eq_refl). guard_parts Hg. simpl in Hh. injection Hh as Hh'.
-      split; [|split; [assumption|split; [assumption|intros Hf; discriminate]]].
+    + weaken (isassign_neg_sound [VTyped c0] true eq_refl). guard_parts Hg. simpl in Hh. injection Hh as Hh'.
+      split; [|split; [assumption|split; [assumption|split; intros Hf; discriminate]]].
       simpl. rewrite orb_false_r. simpl in Hpn. unfold promoted_obj in Hpn. unfold isinst in Hh'.
       rewrite Hh' in Hpn. simpl in Hpn. rewrite andb_true_r in Hpn. exact Hpn.
   - (* case _: *)
@@ -247,12 +244,13 @@ Proof.
     split; apply asound_null.
   - (* sequence pattern: is a sequence *)
     split; apply asound_leaf.
-    + weaken (isassign_pos_sound [VGen GSeqPat] po eq_refl). guard_parts Hg. simpl in Hh. injection Hh as Hh'.
+    + weaken (isassign_pos_sound [VGen GSeqPat] po). guard_parts Hg. simpl in Hh. injection Hh as Hh'.
       split; [|split; assumption]. destruct o; simpl in Hh'; try discriminate; reflexivity.
-    + weaken (isassign_neg_sound [VGen GSeqPat] po eq_refl eq_refl). guard_parts Hg. simpl in Hh. injection Hh as Hh'.
-      split; [|split; [assumption|split; [assumption|]]].
+    + weaken (isassign_neg_sound [VGen GSeqPat] po eq_refl). guard_parts Hg. simpl in Hh. injection Hh as Hh'.
+      split; [|split; [assumption|split; [assumption|split]]].
       * simpl. rewrite orb_false_r. apply (not_seq_not_member o Hw). destruct (seq_elems o); [discriminate|reflexivity].
       * intros Hpo _. unfold sequence_pattern_str in Hss. simpl in Hss. rewrite Hpo in Hss. simpl in Hss. exact Hss.
+      * intros Hf. discriminate.
   - (* sequence pattern: length *)
     split; apply asound_leaf.
     + weaken (lenpat_sound n star true). guard_parts Hg. simpl in Hh. destruct (len_of o) as [k|]; [|discriminate].
@@ -263,12 +261,13 @@ Proof.
     split; apply asound_null.
   - (* mapping pattern: is a mapping *)
     split; apply asound_leaf.
-    + weaken (isassign_pos_sound [VGen GMapPat] po eq_refl). guard_parts Hg. simpl in Hh. injection Hh as Hh'.
+    + weaken (isassign_pos_sound [VGen GMapPat] po). guard_parts Hg. simpl in Hh. injection Hh as Hh'.
       split; [|split; assumption]. destruct o; simpl in Hh'; try discriminate; reflexivity.
-    + weaken (isassign_neg_sound [VGen GMapPat] po eq_refl eq_refl). guard_parts Hg. simpl in Hh. injection Hh as Hh'.
-      split; [|split; [assumption|split; [assumption|]]].
+    + weaken (isassign_neg_sound [VGen GMapPat] po eq_refl). guard_parts Hg. simpl in Hh. injection Hh as Hh'.
+      split; [|split; [assumption|split; [assumption|split]]].
       * simpl. rewrite orb_false_r. apply (not_map_not_member o Hw). destruct o; try reflexivity; discriminate.
       * intros _ [Hf|[]]. discriminate.
+      * intros Hf. discriminate.
   - (* mapping pattern: keys *)
     split; apply asound_null.
   - (* parts of one pattern *)
@@ -276,30 +275,29 @@ Proof.
     + apply asound_and.
       * apply (asound_weaken _ (P a true)); [|exact IHa1].
         intros o [Hh Hg]. guard_parts Hg. simpl in Hh, Hok, Hpn.
-        apply andb_true_iff in Hok. apply orb_false_iff in Hpn. apply sps_split in Hss. apply ap_split in Hap.
+        apply andb_true_iff in Hok. apply orb_false_iff in Hpn. apply sps_split in Hss. simpl in Hap. apply orb_false_iff in Hap. simpl in Hgp. apply orb_false_iff in Hgp.
         destruct (holds a o) as [[|]|] eqn:Ea; try discriminate.
         split; [exact Ea|apply c02_guard_join; tauto].
       * apply (asound_weaken _ (P b true)); [|exact IHb1].
         intros o [Hh Hg]. guard_parts Hg. simpl in Hh, Hok, Hpn.
-        apply andb_true_iff in Hok. apply orb_false_iff in Hpn. apply sps_split in Hss. apply ap_split in Hap.
+        apply andb_true_iff in Hok. apply orb_false_iff in Hpn. apply sps_split in Hss. simpl in Hap. apply orb_false_iff in Hap. simpl in Hgp. apply orb_false_iff in Hgp.
         destruct (holds a o) as [[|]|]; try discriminate.
         split; [exact Hh|apply c02_guard_join; tauto].
     + apply (asound_weaken _ (fun o => P a false o \/ P b false o)); [|apply asound_or; assumption].
       intros o [Hh Hg]. guard_parts Hg. simpl in Hh, Hok, Hpn.
-      apply andb_true_iff in Hok. apply orb_false_iff in Hpn. apply sps_split in Hss. apply ap_split in Hap.
+      apply andb_true_iff in Hok. apply orb_false_iff in Hpn. apply sps_split in Hss. simpl in Hap. apply orb_false_iff in Hap. simpl in Hgp. apply orb_false_iff in Hgp.
       destruct (holds a o) as [[|]|] eqn:Ea; try discriminate.
       * right. split; [exact Hh|apply c02_guard_join; tauto].
       * left. split; [exact Ea|apply c02_guard_join; tauto].
   - (* assert_is_instance *)
     split; apply asound_leaf.
     + weaken (isinstance_pos_sound c1). guard_parts Hg. simpl in Hh. injection Hh as Hh'.
-      unfold assert_promotion in Hap. simpl in Hap. split; [exact Hh'|]. repeat split; assumption.
+      split; [exact Hh'|]. repeat split; assumption.
     + weaken (isinstance_neg_sound c1). guard_parts Hg. simpl in Hh. injection Hh as Hh'.
-      unfold assert_promotion in Hap. simpl in Hap. split; [exact Hh'|]. repeat split; assumption.
+      simpl in Hap. rewrite Hh' in Hap. simpl in Hap. split; assumption.
   - (* assert_is *)
     split; apply asound_leaf.
-    + weaken (isvalue_pos_sound l1). guard_parts Hg. simpl in Hh. injection Hh as Hh'.
-      unfold assert_promotion in Hap. simpl in Hap. split; [apply obj_eqb_eq; exact Hh'|]. repeat split; assumption.
+    + weaken (isvalue_pos_sound l1). simpl in Hh. injection Hh as Hh'. apply obj_eqb_eq. exact Hh'.
     + weaken (isvalue_neg_sound l1). simpl in Hh. injection Hh as Hh'. exact Hh'.
   - (* hasattr *)
     split; apply asound_leaf; apply addannot_sound.
@@ -314,17 +312,17 @@ Proof.
     + apply asound_and.
       * apply (asound_weaken _ (P b true)); [|exact IHb1].
         intros o [Hh Hg]. guard_parts Hg. simpl in Hh, Hok, Hpn.
-        apply andb_true_iff in Hok. apply orb_false_iff in Hpn. apply sps_split in Hss. apply ap_split in Hap.
+        apply andb_true_iff in Hok. apply orb_false_iff in Hpn. apply sps_split in Hss. simpl in Hap. apply orb_false_iff in Hap. simpl in Hgp. apply orb_false_iff in Hgp.
         destruct (holds a o) as [[|]|]; try discriminate.
         split; [exact Hh|apply c02_guard_join; tauto].
       * apply (asound_weaken _ (P a true)); [|exact IHa1].
         intros o [Hh Hg]. guard_parts Hg. simpl in Hh, Hok, Hpn.
-        apply andb_true_iff in Hok. apply orb_false_iff in Hpn. apply sps_split in Hss. apply ap_split in Hap.
+        apply andb_true_iff in Hok. apply orb_false_iff in Hpn. apply sps_split in Hss. simpl in Hap. apply orb_false_iff in Hap. simpl in Hgp. apply orb_false_iff in Hgp.
         destruct (holds a o) as [[|]|] eqn:Ea; try discriminate.
         split; [exact Ea|apply c02_guard_join; tauto].
     + apply (asound_weaken _ (fun o => P b false o \/ P a false o)); [|apply asound_or; assumption].
       intros o [Hh Hg]. guard_parts Hg. simpl in Hh, Hok, Hpn.
-      apply andb_true_iff in Hok. apply orb_false_iff in Hpn. apply sps_split in Hss. apply ap_split in Hap.
+      apply andb_true_iff in Hok. apply orb_false_iff in Hpn. apply sps_split in Hss. simpl in Hap. apply orb_false_iff in Hap. simpl in Hgp. apply orb_false_iff in Hgp.
       destruct (holds a o) as [[|]|] eqn:Ea; try discriminate.
       * left. split; [exact Hh|apply c02_guard_join; tauto].
       * right. split; [exact Ea|apply c02_guard_join; tauto].
@@ -332,19 +330,19 @@ Proof.
     destruct IHa as [IHa1 IHa2]. destruct IHb as [IHb1 IHb2]. split.
     + apply (asound_weaken _ (fun o => P a true o \/ P b true o)); [|apply asound_or; assumption].
       intros o [Hh Hg]. guard_parts Hg. simpl in Hh, Hok, Hpn.
-      apply andb_true_iff in Hok. apply orb_false_iff in Hpn. apply sps_split in Hss. apply ap_split in Hap.
+      apply andb_true_iff in Hok. apply orb_false_iff in Hpn. apply sps_split in Hss. simpl in Hap. apply orb_false_iff in Hap. simpl in Hgp. apply orb_false_iff in Hgp.
       destruct (holds a o) as [[|]|] eqn:Ea; try discriminate.
       * left. split; [exact Ea|apply c02_guard_join; tauto].
       * right. split; [exact Hh|apply c02_guard_join; tauto].
     + apply asound_and.
       * apply (asound_weaken _ (P a false)); [|exact IHa2].
         intros o [Hh Hg]. guard_parts Hg. simpl in Hh, Hok, Hpn.
-        apply andb_true_iff in Hok. apply orb_false_iff in Hpn. apply sps_split in Hss. apply ap_split in Hap.
+        apply andb_true_iff in Hok. apply orb_false_iff in Hpn. apply sps_split in Hss. simpl in Hap. apply orb_false_iff in Hap. simpl in Hgp. apply orb_false_iff in Hgp.
         destruct (holds a o) as [[|]|] eqn:Ea; try discriminate.
         split; [exact Ea|apply c02_guard_join; tauto].
       * apply (asound_weaken _ (P b false)); [|exact IHb2].
         intros o [Hh Hg]. guard_parts Hg. simpl in Hh, Hok, Hpn.
-        apply andb_true_iff in Hok. apply orb_false_iff in Hpn. apply sps_split in Hss. apply ap_split in Hap.
+        apply andb_true_iff in Hok. apply orb_false_iff in Hpn. apply sps_split in Hss. simpl in Hap. apply orb_false_iff in Hap. simpl in Hgp. apply orb_false_iff in Hgp.
         destruct (holds a o) as [[|]|]; try discriminate.
         split; [exact Hh|apply c02_guard_join; tauto].
 Qed.
@@ -364,8 +362,8 @@ Lemma member_boolop_merge : forall c V o, member o V = true -> member o (boolop_
 Proof.
   induction c; intros V o Hm; simpl; try exact Hm.
   - apply IHc. exact Hm.
-  - rewrite member_app, Hm. reflexivity.
-  - rewrite member_app, Hm. reflexivity.
+  - rewrite member_app, (IHc1 V o Hm). reflexivity.
+  - rewrite member_app, (IHc1 V o Hm). reflexivity.
 Qed.
 
 Theorem narrow_e2e_keeps_value_partial : forall V c pol o,
@@ -436,9 +434,32 @@ Lemma assert_promotion_refuted :
   exists V c pol o, wf_obj o = true /\ cond_ok c o = true /\ member o V = true /\ holds c o = Some pol /\
     assert_promotion c o = true /\ member o (narrow V c pol) = false.
 Proof.
-  exists [plain (VTyped CFloat)], (CAssertInst CInt), true, (OInt 1).
+  exists [plain (VTyped CFloat)], (CAssertInst CFloat), false, (OInt 1).
   vm_compute. repeat split; reflexivity.
 Qed.
+
+(* the repaired positive branch: x: float, assert_is_instance(x, int) gives int and keeps 1 *)
+Example assert_promotion_repaired :
+  narrow [plain (VTyped CFloat)] (CAssertInst CInt) true = [plain (VTyped CInt)] /\
+  c02_guard (CAssertInst CInt) (OInt 1) = true /\ holds (CAssertInst CInt) (OInt 1) = Some true /\
+  narrow [plain (VTyped CFloat)] (CAssertIs (OBool true)) true = [plain (VKnown (OBool true))] /\
+  narrow [plain (VSub CFloat)] (CAssertIs (OClass CInt)) true = [plain (VKnown (OClass CInt))].
+Proof. vm_compute. repeat split; reflexivity. Qed.
+
+Lemma generic_pattern_negative_refuted :
+  exists V c pol o, wf_obj o = true /\ cond_ok c o = true /\ member o V = true /\ holds c o = Some pol /\
+    generic_pattern_negative c o = true /\ member o (narrow V c pol) = false.
+Proof.
+  exists [plain (VGen (GList TAnyE))], (CTypeIs [VGen (GList TIntE)]), false, (OList [LStr [97%N]]).
+  vm_compute. repeat split; reflexivity.
+Qed.
+
+(* the repaired positive branch: list[int] narrowed by TypeIs[list[str]] keeps the empty list *)
+Example generic_typeis_positive :
+  narrow [plain (VGen (GList TIntE))] (CTypeIs [VGen (GList TStrE)]) true = [plain (VGen (GList TStrE))] /\
+  c02_guard (CTypeIs [VGen (GList TStrE)]) (OList []) = true /\
+  holds (CTypeIs [VGen (GList TStrE)]) (OList []) = Some true.
+Proof. vm_compute. repeat split; reflexivity. Qed.
 
 Lemma narrow_keeps_value_refuted : ~ narrow_keeps_value_full_statement.
 Proof.
